@@ -72,6 +72,7 @@ Create ==
     /\ Step([C11_fresh_frame_has_no_estimate |-> (E.how = "sizes") => (E.after.zero /\ E.data_zero),
              C11_degrees_of_freedom          |-> E.k_ok,
              C05_axes_match_shape            |-> E.axes_ok,
+             C05_axes_on_uniform_grid        |-> E.grid_ok,
              cont_file                       |-> (E.how \in {"file", "pickle"}) => E.gen = file[E.path].gen,
              C03_loaded_shape                |-> FromSave => (E.sig.T = Saved.T /\ E.sig.F = Saved.F),
              C03_loaded_pixels_float32       |-> FromSave => E.sig.d32 = Saved.d32,
